@@ -463,3 +463,68 @@ func ColdPrelude(kind int, rng *rand.Rand) (desc string, failure string) {
 	}
 	return desc, ""
 }
+
+// Retainer keeps results a caller would keep (returned pointers, slices, proof objects) and checks them again after a
+// number of further calls: a result handed out must not change when the library is used again (recycled slots, pooled
+// backing arrays). Check functions return "" when the retained result still has its expected value.
+type Retainer struct {
+	q   []retained
+	Cap int
+}
+
+type retained struct {
+	sig   string
+	check func() string
+}
+
+// Keep retains one result; when more than Cap results are held, the oldest is checked and dropped.
+func (r *Retainer) Keep(c *mon.Ctx, sig string, check func() string) {
+	if r.Cap == 0 {
+		r.Cap = 96
+	}
+	r.q = append(r.q, retained{sig, check})
+	for len(r.q) > r.Cap {
+		r.pop(c)
+	}
+}
+
+func (r *Retainer) pop(c *mon.Ctx) {
+	it := r.q[0]
+	r.q = r.q[1:]
+	if msg := it.check(); msg != "" {
+		c.Fail("retained-result-changed/"+it.sig, msg+" (a result handed out earlier changed while the caller kept it and went on using the library)", nil)
+	}
+	c.Count("retained_results_rechecked", 1)
+}
+
+// Flush checks everything still held (end of a case).
+func (r *Retainer) Flush(c *mon.Ctx) {
+	for len(r.q) > 0 {
+		r.pop(c)
+	}
+}
+
+// fieldEdgeCalls makes legal calls of lower-level exported functions with edge values, as an unrelated part of the same
+// program might: a batch inversion of a vector containing zeros (documented: zeros stay zero), barycentric coefficients
+// asked for a point of the domain (legal, the result is not used). Their results are judged in C15/C18; here they are
+// history.
+func fieldEdgeCalls(env *Env, rng *rand.Rand) {
+	n := 1 + rng.Intn(300)
+	v := make([]fr.Element, n)
+	for i := range v {
+		v[i] = FrFromBig(randBig(rng, ref.R))
+	}
+	for k := 0; k < 1+rng.Intn(3); k++ {
+		v[rng.Intn(n)].SetZero()
+	}
+	if rng.Intn(3) == 0 {
+		v[0].SetZero()
+		v[n-1].SetZero()
+	}
+	mon.Try(func() { fr.BatchInvert(v) })
+	if env != nil && rng.Intn(2) == 0 {
+		var z fr.Element
+		z.SetUint64(uint64(rng.Intn(256)))
+		mon.Try(func() { env.Conf.PrecomputedWeights.ComputeBarycentricCoefficients(z) })
+	}
+}
